@@ -293,7 +293,10 @@ def make_scenario(consts, g, n, fam, kappa, dtype, abatch=(), rbatch=None, cols=
     rhs = rand_rhs(n, cols, rbatch, g, dtype, special)
     x0 = None
     if x0_kind == "random":
-        x0 = torch.randn(*rbatch, n, cols, generator=g, dtype=F64).to(dtype)
+        xs = torch.linalg.solve(A, rhs.double())
+        sc_ = xs.norm(dim=-2, keepdim=True) / math.sqrt(n)
+        sc_ = torch.where(sc_ == 0, torch.ones_like(sc_), sc_)
+        x0 = (torch.randn(*xs.shape, generator=g, dtype=F64) * sc_).to(dtype)
     elif x0_kind == "near":
         xs = torch.linalg.solve(A, rhs.double())
         x0 = (xs * (1 + 0.05 * torch.randn(*xs.shape, generator=g, dtype=F64))).to(dtype)
@@ -341,6 +344,8 @@ def check_budgets(chk, sc):
     evs = torch.linalg.eigvalsh(A64)
     lmin = evs[..., :1]
     floor_abs = relres_floor * bnorm / torch.sqrt(lmin)        # ||e||_A <= ||r|| / sqrt(lambda_min)
+    floor_abs = floor_abs + 50 * u * kA * (a_norm_err(A64, xs, torch.zeros_like(xs)) + a_norm_err(A64, x0, torch.zeros_like(xs)))
+    t_eff = sc.get("tolerance") if sc.get("tolerance") is not None else float(sc["consts"]["cg_tolerance"])
     is_sub = bnorm < eps
     tol = sc.get("tolerance")
     maxb = min(n + 2, 40)
@@ -372,7 +377,7 @@ def check_budgets(chk, sc):
             return
         # classical bound (only while the run cannot have stopped early or frozen: tolerance None/0 case handled by floor)
         bound = 2 * rho ** j * e0 * (1 + 1e-6) + floor_abs
-        stopped_early = tol is not None and tol > 0 and len(r.calls) - 1 < j
+        stopped_early = t_eff > 0 and len(r.calls) - 1 < j
         viol = (e > bound) & ~is_sub
         if not stopped_early and bool(viol.any()):
             idx = torch.nonzero(viol)[0].tolist()
@@ -431,6 +436,12 @@ def check_budgets(chk, sc):
 
 def check_scaling(chk, sc, c):
     cell = cell_of(sc, f"scaling[c={c:g}]")
+    eps = sc.get("eps") if sc.get("eps") is not None else float(sc["consts"]["eps"])
+    bn = sc["rhs"].double().norm(dim=-2)
+    for nrm in (bn, bn * abs(c)):
+        if bool(((nrm > 0) & (nrm < 10 * eps)).any()):
+            chk.count("scaling_skipped_subeps")
+            return
     r1 = run_impl(sc)
     sc2 = dict(sc)
     sc2["rhs"] = sc["rhs"] * c
@@ -446,14 +457,19 @@ def check_scaling(chk, sc, c):
     if pow2 and c > 0:
         ok = torch.equal(want, got) and len(r1.calls) == len(r2.calls) and r1.warn == r2.warn
     else:
+        want, got = want.double(), got.double()
         scale = want.abs().amax(-2, keepdim=True).clamp_min(1e-300)
+        if sc.get("x0") is not None:
+            scale = torch.maximum(scale, (sc["x0"].double() * c).abs().amax(-2, keepdim=True))
         rt = 1e-9 if sc["dtype"] == F64 else 1e-3
-        ok = bool((((want - got).abs() / scale) <= rt * max(1.0, sc["kappa"] ** 0.5)).all()) and r1.warn == r2.warn
+        ok = bool((((want - got).abs() / scale) <= rt * max(1.0, sc["kappa"])).all()) and r1.warn == r2.warn
     if not ok:
         chk.violation(cell, f"x(c*b) != c*x(b) for c={c:g}: max |diff| {float((want - got).abs().max()):.3e}, iterations {len(r1.calls) - 1} vs {len(r2.calls) - 1}, "
                       f"warn {r1.warn} vs {r2.warn}", payload_of(sc, {"check": "scaling", "c": c}))
     if sc.get("n_tridiag") and r1.tmat is not None and r2.tmat is not None:
-        if r1.tmat.shape != r2.tmat.shape or not torch.allclose(r1.tmat, r2.tmat, rtol=1e-8 if sc["dtype"] == F64 else 1e-3, atol=1e-10):
+        gk = sc.get("_genuine_k") or 1
+        t1, t2 = r1.tmat[..., :gk, :gk].double(), r2.tmat[..., :gk, :gk].double()
+        if r1.tmat.shape != r2.tmat.shape or not torch.allclose(t1, t2, rtol=(1e-8 if sc["dtype"] == F64 else 1e-3) * max(1.0, sc["kappa"]), atol=1e-10):
             chk.violation(cell + "/tridiag", "tridiagonal matrices depend on the scale of the right-hand side", payload_of(sc, {"check": "scaling", "c": c}))
 
 
@@ -656,6 +672,7 @@ def check_solve_route(chk, consts, g, n, fam, kappa, dtype, batch, vec):
     import linear_operator
     from linear_operator import settings
     from linear_operator.operators import DenseLinearOperator
+    vec = vec and not batch
     A = spd(n, kappa, fam, g, batch).to(dtype)
     b = torch.randn(*batch, n, generator=g, dtype=F64).to(dtype) if vec else torch.randn(*batch, n, 3, generator=g, dtype=F64).to(dtype)
     cell = f"C08/solve-route/fam={fam}|kappa={kappa:g}|n={n}|batch={'x'.join(map(str, batch)) or '-'}|vec={int(vec)}|dtype={'f32' if dtype == F32 else 'f64'}"
@@ -677,7 +694,7 @@ def check_solve_route(chk, consts, g, n, fam, kappa, dtype, batch, vec):
         chk.violation(cell + "/shape", f"solve returned shape {tuple(x.shape)} for rhs {tuple(b.shape)}", {"check": "solve"})
         return
     rel = float(((x.double() - xs).norm(dim=-1 if vec else -2) / xs.norm(dim=-1 if vec else -2)).max())
-    lim = kappa * (10 * tolv) + 100 * kappa * unit(dtype)
+    lim = kappa * (10 * tolv + 3e-5) + 100 * kappa * unit(dtype)   # 3e-5: documented floor sqrt(eps) of the default eps
     if not rel <= lim:
         chk.violation(cell, f"op.solve via CG (cg_tolerance={tolv:g}) has relative error {rel:.3e} > {lim:.3e}", {"check": "solve"})
 
@@ -726,8 +743,12 @@ def compare_model(chk, sc, r, outs3, tol_rel):
                 if not close(a, b, sc_):
                     return ("break", f"argument of matmul_closure call {ci}: implementation {a!r}, model {b!r}")
     xcols = flat_cols(r.result.double() if r.result.dim() > 1 else r.result.double().unsqueeze(-1))
-    for col, mcol in zip(xcols, base["xv"]):
-        sc_ = max(1e-300, float(col.abs().max()))
+    bsh = r.result.shape
+    ref = torch.linalg.solve(sc["A"].double(), sc["rhs"].double()).expand(bsh)
+    refs = flat_cols(ref)
+    x0s = flat_cols(sc["x0"].double().expand(bsh)) if sc.get("x0") is not None else [torch.zeros(1, dtype=F64)] * len(refs)
+    for col, mcol, rc, gc in zip(xcols, base["xv"], refs, x0s):
+        sc_ = max(1e-300, float(col.abs().max()), float(rc.abs().max()), float(gc.abs().max()))
         for a, b in zip(col.tolist(), mcol):
             if not close(a, b, sc_) and not abs(a - b) < 1e-300:
                 return ("break", f"solution: implementation {a!r}, model {b!r}")
